@@ -127,7 +127,11 @@ public:
                 return false;
             }
 
-            if (empty_.wait_for(lock, timeout) == std::cv_status::timeout)
+            if (timeout == std::chrono::duration<Rep, Period>::max())
+            {
+                empty_.wait(lock);  // forever: no deadline to overflow.
+            }
+            else if (empty_.wait_for(lock, timeout) == std::cv_status::timeout)
             {
                 return false;
             }
@@ -172,7 +176,9 @@ public:
                 return false; 
             }
 
-            auto expiration = std::chrono::system_clock::now() + timeout;
+            const bool no_deadline = (timeout == std::chrono::duration<Rep, Period>::max());
+            auto expiration = std::chrono::system_clock::now();
+            if (!no_deadline) expiration += timeout;
             
             while (SIZE == size_)
             {
@@ -181,7 +187,11 @@ public:
                     return false;
                 }
 
-                if (full_.wait_until(lock, expiration) == std::cv_status::timeout)
+                if (no_deadline)
+                {
+                    full_.wait(lock);   // forever: no deadline to overflow.
+                }
+                else if (full_.wait_until(lock, expiration) == std::cv_status::timeout)
                 {
                     return false;
                 }
